@@ -23,6 +23,8 @@ type Opts struct {
 	Positioner int   `json:"positioner"`  // 0 sink colouring, 1 valign, 2 pack right, 3 network simplex, 4 B&K, 5..8 B&K forced 0..3
 	Router     int   `json:"router"`      // 0 polyline, 1 straight, 2 ortho, 3 splines, 4 noop
 	Explicit   bool  `json:"explicit"`    // pass algorithm options even where they equal the default
+	NoOrdering bool  `json:"no_ordering"` // pass WithOrdering(OrderingNoop) (documented no-op phase 3; used by C16 only)
+	RandomFlag bool  `json:"random_flag"` // with Breaker == 2: also pass WithNonDeterministicGreedyCycleBreaker(), which only concerns the greedy breaker
 
 	HasFixed bool                  `json:"has_fixed"`
 	FixedW   float64               `json:"fixed_w"`
@@ -94,7 +96,13 @@ func (o Opts) Options() []autog.Option {
 			os = append(os, autog.WithCycleBreaking(autog.CycleBreakingGreedy))
 		}
 	case 2:
+		if o.RandomFlag && o.Explicit {
+			os = append(os, autog.WithNonDeterministicGreedyCycleBreaker())
+		}
 		os = append(os, autog.WithCycleBreaking(autog.CycleBreakingDepthFirst))
+		if o.RandomFlag && !o.Explicit {
+			os = append(os, autog.WithNonDeterministicGreedyCycleBreaker())
+		}
 	}
 	switch o.Layerer {
 	case 0:
@@ -104,7 +112,9 @@ func (o Opts) Options() []autog.Option {
 	case 1:
 		os = append(os, autog.WithLayering(autog.LayeringLongestPath))
 	}
-	if o.Explicit {
+	if o.NoOrdering {
+		os = append(os, autog.WithOrdering(autog.OrderingNoop))
+	} else if o.Explicit {
 		os = append(os, autog.WithOrdering(autog.OrderingWMedian))
 	}
 	switch {
